@@ -60,8 +60,9 @@ UNITS = [
 DIRSPELL = ["dirspell_kebab", "dirspell_camel", "dirspell_camel_inner_upper", "dirspell_one_modifier", "dirspell_two_modifiers", "dirspell_ns_arg",
             "dirspell_ns_arg_modifier", "dirspell_camel_ns", "dirspell_show", "dirspell_kebab_inner", "dirspell_name_starts_with_v", "dirspell_ns_name_starts_with_v", "dirspell_suffix_with_array_form", "dirspell_digit_modifier", "dirspell_empty_name", "dirspell_multibyte_name"]
 DIRVAL = ["dirval_v", "dirval_v_arg", "dirval_v_mods", "dirval_v_arg_mods", "dirval_empty_array", "dirval_hole", "dirval_absent", "dirval_string", "dirval_nonident_modifier"]
+DIRSPELL_MODS = ["dirspell_one_modifier", "dirspell_two_modifiers", "dirspell_ns_arg_modifier", "dirspell_suffix_with_array_form", "dirspell_digit_modifier", "dirspell_empty_name"]
 DIRVAL_SLOW = ["dirval_v_mods", "dirval_v_arg_mods", "dirval_nonident_modifier"]
-VMODEL_SLOW = ["vmodel_array_mods", "vmodel_array_arg_mods"]
+VMODEL_SLOW = ["vmodel_array_mods", "vmodel_array_arg_mods", "vmodel_suffix_modifier", "vmodel_ns_arg_modifier", "vmodel_ns_arg_modifier_array_form"]
 VHTML = ["vhtml_absent", "vhtml_str", "vhtml_expr", "vhtml_array", "vhtml_empty", "vhtml_element", "vhtml_fragment",
          "vtext_absent", "vtext_str", "vtext_expr", "vtext_array", "vtext_empty", "vtext_element", "vtext_fragment"]
 VMODEL = ["vmodel_plain", "vmodel_suffix_modifier", "vmodel_ns_arg", "vmodel_ns_arg_modifier", "vmodel_array_strarg", "vmodel_array_computed", "vmodel_array_mods", "vmodel_array_arg_mods", "vmodel_camel", "vmodel_ns_arg_array_form", "vmodel_ns_arg_modifier_array_form"]
@@ -74,8 +75,11 @@ RTB = ["rtb_date", "rtb_map", "rtb_set", "rtb_promise", "rtb_regexp", "rtb_error
        "rtb_lowercase", "rtb_capitalize", "rtb_uncapitalize", "rtb_parameters", "rtb_ctor_parameters", "rtb_record", "rtb_partial", "rtb_readonly"]
 D12 = {"memcmp.0": 33}
 UNITS += [
-    U("U-dirspell", ["directive::parse_directive", "directive::transform_modifiers"], DIRSPELL, ["C04", "C08"], completeness="bounded",
-      domain="10 concrete directive spellings (kebab, camel, inner capitals, 1-2 `_mod` suffixes, namespaced arg) x symbolic host kind", mem_gb=8, timeout=1200, unwindset={"memcmp.0": 12}, assumes=[A_DROP, A_CLONE]),
+    U("U-dirspell", ["directive::parse_directive"], [h for h in DIRSPELL if h not in DIRSPELL_MODS], ["C04", "C08"], completeness="bounded",
+      domain="10 concrete directive spellings without modifiers (kebab, camel, inner capitals, names starting with `v`, multi-byte first letter, namespaced arg) x symbolic host kind", mem_gb=8, timeout=1200, unwindset={"memcmp.0": 12}, assumes=[A_DROP, A_CLONE]),
+    U("U-dirspell-mods", ["directive::parse_directive", "directive::transform_modifiers"], DIRSPELL_MODS, ["C04", "C07", "C08"], completeness="bounded", tier="thorough",
+      domain="6 spellings with `_mod` suffixes (1-2 modifiers, with arg, with the [v] form, digit-leading modifier, empty name): std BTreeSet construction/iteration on symbolic data (CBMC tarpit: > 8 GB / > 20 min each)",
+      mem_gb=24, timeout=5400, unwindset={"memcmp.0": 12}, assumes=[A_DROP, A_CLONE]),
     U("U-dirval", ["directive::parse_directive", "directive::transform_modifiers"], [h for h in DIRVAL if h not in DIRVAL_SLOW], ["C04", "C07", "C08"], completeness="bounded",
       domain="6 value forms ([v], [v,arg], [], hole, absent, string)", mem_gb=8, timeout=1200, unwindset={"memcmp.0": 12}, assumes=[A_DROP, A_CLONE]),
     U("U-dirval-mods", ["directive::parse_directive", "directive::parse_modifiers", "directive::transform_modifiers"], DIRVAL_SLOW, ["C04", "C07", "C08"], completeness="bounded", tier="thorough",
@@ -83,9 +87,9 @@ UNITS += [
     U("U-vhtml", ["directive::parse_v_html_directive", "directive::parse_v_text_directive"], VHTML, ["C04", "C08"],
       domain="every JSXAttrValue kind (absent, string, expression, array form, empty container, element, fragment) x {v-html, v-text}: complete over value kinds", mem_gb=8, timeout=900, assumes=[A_DROP, A_CLONE]),
     U("U-vmodel-parse", ["directive::parse_v_model_directive"], [h for h in VMODEL if h not in VMODEL_SLOW], ["C05"], completeness="bounded",
-      domain="9 v-model spellings/value forms without a modifier list x symbolic host kind", mem_gb=8, timeout=1200, unwindset={"memcmp.0": 12}, assumes=[A_DROP, A_CLONE]),
+      domain="6 v-model spellings/value forms without modifiers (plain, camel, `:arg`, `:arg` with the [v] form, [v, \"arg\"], [v, computed]) x symbolic host kind", mem_gb=8, timeout=1200, unwindset={"memcmp.0": 12}, assumes=[A_DROP, A_CLONE]),
     U("U-vmodel-parse-mods", ["directive::parse_v_model_directive", "directive::parse_modifiers"], VMODEL_SLOW, ["C05"], completeness="bounded", tier="thorough",
-      domain="2 v-model array forms with a modifier list", mem_gb=16, timeout=3600, unwindset={"memcmp.0": 12}, assumes=[A_DROP, A_CLONE]),
+      domain="5 v-model forms with modifiers (suffix / list): std BTreeSet on symbolic data", mem_gb=24, timeout=5400, unwindset={"memcmp.0": 12}, assumes=[A_DROP, A_CLONE]),
     U("U-resolvedir", ["VueJsxTransformVisitor::resolve_directive"], RESOLVE, ["C04", "C05"],
       domain="directive {show, model, other} x host {input, select, textarea, other} x type attribute {absent, checkbox, radio, other string, dynamic, after another attribute} x symbolic options", mem_gb=8, timeout=900, assumes=[A_DROP, A_CLONE, A_FMT]),
     U("U-pragma-prec", ["VueJsxTransformVisitor::get_pragma"], ["pragma_none", "pragma_option", "pragma_comment", "pragma_comment_over_option"], ["C15"],
@@ -149,8 +153,10 @@ UNITS += [
 ]
 
 UNITS += [
-    U("U-dedupe", ["util::dedupe_props"], ["dedupe_class_twice", "dedupe_listener_around_other", "dedupe_plain_twice", "dedupe_distinct", "dedupe_across_spread", "dedupe_class_thrice"], ["C01"], completeness="bounded",
-      domain="prop lists of length 2..3: repeated class / listener / ordinary key, distinct keys, a spread in between", mem_gb=8, timeout=900, unwindset={"memcmp.0": 12}, assumes=[A_DROP, A_CLONE]),
+    U("U-dedupe", ["util::dedupe_props"], ["dedupe_class_twice", "dedupe_plain_twice", "dedupe_distinct"], ["C01"], completeness="bounded",
+      domain="prop lists of length 2: repeated class, repeated ordinary key, distinct keys", mem_gb=8, timeout=900, unwindset={"memcmp.0": 12}, assumes=[A_DROP, A_CLONE]),
+    U("U-dedupe-more", ["util::dedupe_props"], ["dedupe_listener_around_other", "dedupe_across_spread", "dedupe_class_thrice"], ["C01"], completeness="bounded", tier="thorough",
+      domain="prop lists of length 3: listener around another prop, a spread in between, three class values", mem_gb=20, timeout=3600, unwindset={"memcmp.0": 12}, assumes=[A_DROP, A_CLONE]),
 ]
 
 CANARY = dict(harness="canary_must_fail", timeout=300, mem_gb=4)
